@@ -1213,12 +1213,12 @@ fn lower_expr_with_args(
                             } else {
                                 let mut combined_args = args;
                                 combined_args.extend(trailing_args);
-                                lower_expr_with_args(ctx, other, combined_args)
+                                lower_operator_callee(ctx, other, combined_args, astptr)
                             }
                         } else {
                             let mut combined_args = args;
                             combined_args.extend(trailing_args);
-                            lower_expr_with_args(ctx, other, combined_args)
+                            lower_operator_callee(ctx, other, combined_args, astptr)
                         }
                     }
                 };
@@ -1799,6 +1799,48 @@ fn lower_expr_with_args(
                 astptr,
             })
         }
+    }
+}
+
+/// `-f(x)`: the call's arguments belong to the operand of the operator node. A call without
+/// arguments (`-f()`) cannot travel as an (empty) list of trailing arguments, so it is put
+/// around the operand after lowering.
+fn lower_operator_callee(
+    ctx: &mut LowerCtx,
+    callee: cst::Expr,
+    args: Vec<ast::Expr>,
+    call_astptr: MySyntaxNodePtr,
+) -> Option<ast::Expr> {
+    if args.is_empty() {
+        let lowered = lower_expr(ctx, callee)?;
+        return Some(apply_nullary_call(lowered, call_astptr));
+    }
+    lower_expr_with_args(ctx, callee, args)
+}
+
+fn apply_nullary_call(expr: ast::Expr, call_astptr: MySyntaxNodePtr) -> ast::Expr {
+    match expr {
+        ast::Expr::EUnary { op, expr, astptr } => ast::Expr::EUnary {
+            op,
+            expr: Box::new(apply_nullary_call(*expr, call_astptr)),
+            astptr,
+        },
+        ast::Expr::EBinary {
+            op,
+            lhs,
+            rhs,
+            astptr,
+        } => ast::Expr::EBinary {
+            op,
+            lhs,
+            rhs: Box::new(apply_nullary_call(*rhs, call_astptr)),
+            astptr,
+        },
+        operand => ast::Expr::ECall {
+            func: Box::new(operand),
+            args: Vec::new(),
+            astptr: call_astptr,
+        },
     }
 }
 
